@@ -553,6 +553,15 @@ def mon_c17(cfg, steps):
             got = [(int(q[1]), int(q[3])) for q in s.q if q[0] == "q.req"]
             if got != exp:
                 out.append({"step": s.idx, "what": "UnstakeRequests(%s) returned %r, the open requests are %r" % (u, got, exp)})
+        elif kind in ("allreq", "allreq2"):
+            # the by-user index in key order: (length of user, user bytes, batch id), after the key ("", start_after)
+            sa = None if t[2] == "-" else int(t[2]); l = lim(t[3])
+            rows = sorted(((len(uu.encode()), uu.encode(), b), a) for (b, uu, a) in st["reqs"])
+            exp = [(k[2], k[1], a) for (k, a) in rows if not (sa is not None and k[0] == 0 and k[2] <= sa)][:l]
+            got = [(int(q[1]), unhex(q[2]), int(q[3])) for q in s.q if q[0] == "q.req"]
+            if got != exp:
+                out.append({"step": s.idx, "what": "AllUnstakeRequests%s(start_after=%s, limit=%s) returned %d rows %r..., the index holds %r..." % (
+                    "V2" if kind == "allreq2" else "", t[2], t[3], len(got), got[:3], exp[:3])})
         elif kind == "ibcq":
             sa = None if t[2] == "-" else int(t[2]); l = lim(t[3])
             exp = [k for k in sorted(st["pkts"]) if sa is None or k > sa][:l]
@@ -649,6 +658,19 @@ def mon_c13(cfg, steps):
         elif k == "updcfg":
             if who != pre["admin"]:
                 out.append({"step": s.idx, "what": "UpdateConfig executed for non-admin %s" % who})
+            # an accepted update is in force afterwards: the supplied trader / allow-list replace the stored ones, a
+            # section that was not supplied keeps its value (the trader and the allow-list the later swaps are checked
+            # against are the ones the admin last set)
+            post = tstate(s)
+            if post:
+                want_trader = pre["trader"] if t[4] == "-" else unhex(t[4]).decode("utf-8", "replace")
+                want_routes = pre["routes"] if t[5] == "-" else parse_routes(t[5])
+                if post.get("trader") != want_trader:
+                    out.append({"step": s.idx, "what": "UpdateConfig(trader=%s) was accepted but the trader in force is %s" % (
+                        "unchanged" if t[4] == "-" else want_trader, post.get("trader"))})
+                if post.get("routes") != want_routes:
+                    out.append({"step": s.idx, "what": "UpdateConfig(allowed_swap_routes=%s) was accepted but the allow-list in force is %r" % (
+                        "unchanged" if t[5] == "-" else repr(want_routes), post.get("routes"))})
     return out
 
 
@@ -1243,7 +1265,7 @@ def mon_c16(cfg, steps):
     """no entry point call within the stated domain ends in a panic (observed through catch_unwind in the harness)"""
     out = []
     for s in steps:
-        if s.res != "panic":
+        if s.res != "panic" or s.optoks[0] == "fn":      # helper functions called directly are not entry points
             continue
         ok, why = c16_domain(s)
         if not ok:
